@@ -722,6 +722,22 @@ func TestVerifHostile(t *testing.T) {
 	}
 	defer w.Close()
 	if in, ok := vgen.ReplayInput(); ok {
+		if raw, isRaw := vgen.KV(in, "raw"); isRaw { // crafted wire bytes: only the envelope decoder is exercised
+			b, _ := hex.DecodeString(raw)
+			res := func() (o string) {
+				defer func() {
+					if recover() != nil {
+						o = "out=panic-decoder"
+					}
+				}()
+				if err := (drpcEncoding_File_remote_proto{}).Unmarshal(b, &Envelope{}); err != nil {
+					return "out=rejected"
+				}
+				return "out=decoded"
+			}()
+			w.Case("replay", in, res)
+			return
+		}
 		e, err := vParseHostile(in)
 		if err != nil {
 			t.Fatal(err)
@@ -732,6 +748,45 @@ func TestVerifHostile(t *testing.T) {
 	for i, in := range vgen.CorpusInputs() {
 		if e, err := vParseHostile(in); err == nil {
 			w.Case(fmt.Sprintf("corpus%d", i), vDescribe(e), runHostile(t, e))
+		}
+	}
+	// crafted wire bytes: length prefixes at the edge of the integer range, at every length-delimited field of Message and
+	// Envelope (random byte mutations never produce them). The decoder must reject them (or decode them), never panic.
+	uvar := func(v uint64) []byte {
+		var b []byte
+		for v >= 0x80 {
+			b = append(b, byte(v)|0x80)
+			v >>= 7
+		}
+		return append(b, byte(v))
+	}
+	k := 0
+	for _, huge := range []uint64{1<<63 - 1, 1<<63 - 2, 1<<63 - 9, 1<<63 - 40, 1 << 63, 1<<64 - 1, 1<<62 + 5, 1<<31 - 1, 1 << 31, 1 << 32} {
+		// Message{ data: <declared length huge, nothing follows> } inside Envelope.messages, with and without a type name first
+		msg := append([]byte{0x0a}, uvar(huge)...)
+		for _, prefix := range [][]byte{nil, {0x0a, 0x01, 'x'}} {
+			env := append(append([]byte{}, prefix...), 0x22)
+			env = append(env, uvar(uint64(len(msg)))...)
+			env = append(env, msg...)
+			raws := [][]byte{env,
+				append(append([]byte{}, prefix...), append([]byte{0x22}, uvar(huge)...)...),   // messages: declared length huge
+				append(append([]byte{}, prefix...), append([]byte{0x0a}, uvar(huge)...)...)}   // typeNames: declared length huge
+			for _, b := range raws {
+				res := func() (o string) {
+					defer func() {
+						if recover() != nil {
+							o = "out=panic-decoder"
+						}
+					}()
+					dec := &Envelope{}
+					if err := (drpcEncoding_File_remote_proto{}).Unmarshal(b, dec); err != nil {
+						return "out=rejected"
+					}
+					return "out=decoded"
+				}()
+				w.Case(fmt.Sprintf("raw%d", k), "raw="+hex.EncodeToString(b), res)
+				k++
+			}
 		}
 	}
 	r := vgen.NewRng(vgen.Seed())
